@@ -150,11 +150,11 @@ def diff(rin, rout, strip_fragment=False):
             continue
         if rin[f] != rout[f]:
             bad.append(f)
-    pa_ok = (rin["path"], rin["trailing_slash"]) == (rout["path"], rout["trailing_slash"])
-    pb_ok = (rin["path_alt"], rin["trailing_slash_alt"]) == (rout["path"], rout["trailing_slash"])
-    if not (pa_ok or pb_ok):
-        if rin["path"] != rout["path"] and rin["path_alt"] != rout["path"]:
-            bad.append("path")
-        else:
-            bad.append("trailing_slash")
+    # "empty-segment resolution" is read the way every independent reader of the statement read it (and the way ural does it):
+    # empty segments are dropped first, then '.' and '..' are resolved (reading A). The RFC 3986 order (B, kept in the record as
+    # path_alt for diagnostics) is NOT accepted as an alternative any more - see DESIGN.md 9.2.
+    if rin["path"] != rout["path"]:
+        bad.append("path")
+    elif rin["trailing_slash"] != rout["trailing_slash"]:
+        bad.append("trailing_slash")
     return bad
